@@ -6,6 +6,7 @@ both sides built from fresh objects and exhausted through IterateSATGen, trial c
   L2  Repeat(block, cs)  ==  Merge([block], cs, REPEAT, EQUAL_PREAMBLE)
   L3  Repeat(block, [])  ==  Merge([block])  ==  block
   L4  CrossBlock(design, crossing, cs)  ==  MultiCrossBlock(design, [crossing], cs, mode=WEIGHT)
+  H   L3 again after other combinators (of constrained blocks, all arguments at their defaults) were built in the same process
 If exactly one side can be constructed, that is a violation; if neither can, the instance is skipped.
 """
 from collections import Counter
@@ -51,6 +52,20 @@ def law_items(tier, seed):
         rep = {'op': 'repeat', 'block': inner, 'constraints': []}
         mer = {'op': 'merge', 'blocks': [inner], 'constraints': []}
         out.append({'law': 'L3', 'factors': fs, 'sides': [rep, mer, inner], 'tier': tier})
+    # H: the laws must not depend on what was built before in the same process (default arguments are shared objects):
+    # first build Merge / Nest of a CONSTRAINED block with every argument at its default, then check L3 on an unconstrained block
+    A = gen.basic('A', 2); Bf = gen.basic('B', 2); O = gen.basic('O', 2)
+    for pc in ([{'c': 'AtMostKInARow', 'k': 1, 'factor': 'B', 'level': 'b0'}], [{'c': 'Pin', 'index': 0, 'factor': 'B', 'level': 'b1'}],
+               [{'c': 'ExactlyK', 'k': 1, 'factor': 'B', 'level': 'b0'}]):
+        constrained = gen.cross(['A', 'B'], ['A'], pc)
+        for prime in ({'op': 'merge', 'blocks': [constrained], 'constraints': []},
+                      {'op': 'nest', 'outer': gen.cross(['O'], ['O']), 'inner': constrained, 'constraints': []}):
+            for target in (gen.cross(['A', 'B'], ['A']), gen.cross(['A', 'B'], ['A', 'B'])):
+                out.append({'law': 'H', 'factors': [A, Bf, O], 'prime': [prime, prime], 'tier': tier,
+                            'sides': [{'op': 'merge', 'blocks': [target], 'constraints': []}, target]})
+                out.append({'law': 'H', 'factors': [A, Bf, O], 'prime': [prime], 'tier': tier,
+                            'sides': [{'op': 'nest', 'outer': gen.cross(['O'], ['O']), 'inner': target, 'constraints': []},
+                                      {'op': 'nest', 'outer': gen.cross(['O'], ['O']), 'inner': target, 'constraints': [{'c': 'MinimumTrials', 'k': 1}]}]})
     # L4
     s1 = gen.designs(['S1', 'S2s'], tier, seed, {'S1': 160} if tier == 'quick' else None)
     for d in s1:
@@ -71,6 +86,11 @@ def run_item(item):
     cap = CAP[item['tier']]
     sides = []
     design = None
+    for pb in item.get('prime', []):
+        try:
+            core.quiet(B.build, {'factors': item['factors'], 'block': pb})
+        except Exception:
+            pass
     for sb in item['sides']:
         spec = {'factors': item['factors'], 'block': sb}
         try:
